@@ -56,6 +56,7 @@ const (
 	KScalar
 	KObject
 	KList
+	KRogue // a Go value that satisfies the Go interface of a union but is none of its members
 )
 
 // Val is the abstract value tree shared by the universal resolver and the reference executor.
@@ -118,6 +119,38 @@ type Plan interface {
 	Sched(k Key) Sched
 	// Directive outcome for directive `name` at response path `path`: 0 pass, 1 error, 2 null, 3 panic.
 	Directive(path, name string) int
+}
+
+// RoguePlan is an optional extension of Plan: Rogue decides whether the value of a union-typed
+// position is a Go value of a type the generated type switch does not know (user code returning an
+// unexpected implementation of the union's Go interface). Only probes that registered such a type
+// (RegisterRogue) are affected, and only plans that implement this interface.
+type RoguePlan interface {
+	Rogue(k Key, pos string) bool
+}
+
+var (
+	rogueMu  sync.RWMutex
+	rogueReg = map[string]reflect.Type{} // "<probe base>|<union>"
+)
+
+// RegisterRogue is called from the init() of a probe's hand-written Go file.
+func RegisterRogue(probeBase, union string, rt reflect.Type) {
+	rogueMu.Lock()
+	rogueReg[probeBase+"|"+union] = rt
+	rogueMu.Unlock()
+}
+
+func rogueOf(probe, union string) reflect.Type {
+	rogueMu.RLock()
+	defer rogueMu.RUnlock()
+	for k, rt := range rogueReg {
+		i := strings.IndexByte(k, '|')
+		if k[i+1:] == union && strings.HasPrefix(probe, k[:i]) {
+			return rt
+		}
+	}
+	return nil
 }
 
 // SeedPlan is the standard seeded plan with optional forced outcomes.
@@ -586,6 +619,9 @@ func (e *Env) Value(plan Plan, k Key, pos string, t *ast.Type, rt reflect.Type) 
 		if len(names) == 0 {
 			return &Val{Kind: KNull}
 		}
+		if rp, ok := plan.(RoguePlan); ok && rogueOf(e.Probe.Name, def.Name) != nil && rp.Rogue(k, pos) {
+			return &Val{Kind: KRogue, Type: def.Name}
+		}
 		pick := names[H("pick", k.String(), pos)%uint64(len(names))]
 		return &Val{Kind: KObject, Type: pick, Vid: vidOf(k.String(), pos)}
 	case ast.Enum:
@@ -667,6 +703,8 @@ func (e *Env) Build(plan Plan, v *Val, rt reflect.Type) reflect.Value {
 		return p
 	}
 	switch v.Kind {
+	case KRogue:
+		return reflect.New(rogueOf(e.Probe.Name, v.Type)).Elem().Convert(rt)
 	case KList:
 		s := reflect.MakeSlice(rt, len(v.List), len(v.List))
 		for i, el := range v.List {
